@@ -18,7 +18,9 @@ META = dict(
                 'accessor-protected nodes and nested scopes; every callable attribute of pg.List / pg.Dict / pg.Object instances and of the list/dict bases '
                 'is classified read-only or mapped to a model operation (exhaustive, run every time; pg.functor objects included); protection is re-checked on every '
                 'copy route (clone shallow/deep, copy.copy/deepcopy, children of copied containers, from_json(to_json)) of sealed / accessor-protected values and '
-                'through every public view that hands out a part of the value (discovered with dir(): e.g. sym_init_args), every mutator; direct oracle on every step.'),
+                'through every public view that hands out a part of the value (discovered with dir(): e.g. sym_init_args), every mutator; protection as a state invariant '
+                'over generated histories on typed and untyped containers, objects and functors (flags of every node equal a harness shadow after every step, behavioural '
+                're-probe of every protected node at the end); direct oracle on every step.'),
     level_note=('Trusted: Coq kernel; extraction cross-checked against vm_compute; driver/generator; the classification table of read-only attributes in c08.py '
                 '(each entry is additionally executed on a sealed instance and must leave it unchanged). Slice assignment / deletion are modelled by the C02 extension (tied by the C02 correspondence; here classified and executed in the surface sweep). Not modelled: '
                 'value specs, sym_setparent/sym_setpath/sym_setorigin/use_value_spec plumbing (excluded by name with reason).'),
@@ -168,6 +170,8 @@ def replay(ctx, rp):
     return not surface_probe_one(rp['case'])
   if rp.get('case', {}).get('kind') == 'protection':
     return not run_protection_case(rp['case'])
+  if rp.get('case', {}).get('kind') == 'history':
+    return not run_history_case(rp['case'])
   return D.replay_property(ctx, rp, Oracle)
 
 # ----------------------------------------------------------------------------------------------------
@@ -351,6 +355,9 @@ def _prot_values():
       'ObjA': lambda: A(x=1, y=P.Dict(a=1)),
       'ObjB': lambda: B(x=1, y=P.Dict(a=1), z=[1]),
       'Functor': lambda: F(x=5, y=P.Dict(a=1)),
+      'TypedDict': lambda: P.Dict(x=5, y='bar', value_spec=_typed()[0]),
+      'TypedList': lambda: P.List([1, 2, 3], value_spec=_typed()[1]),
+      'TypedObject': lambda: _typed()[2](a=2, d=dict(x=3, y='q'), l=[4, 5], o=P.Dict(k=1)),
       'Dict-of-objects': lambda: P.Dict(o=A(x=1, y=[1]), f=F(x=5, y=6), l=[B(x=2)]),
       'List-of-objects': lambda: P.List([A(x=1, y=[1]), F(x=5, y=6)]),
       'Object-of-objects': lambda: B(x=A(x=1), y=F(x=5, y=6), z=[A(x=3)]),
@@ -449,7 +456,8 @@ def _mutator_table(y):
     t = {'__setitem__': [(k, 55), ('new', 1)], '__setattr__': [(k, 55)], '__delitem__': [(k,)], '__delattr__': [(k,)], 'pop': [(k,)], 'popitem': [()], 'clear': [()],
          'setdefault': [('new', 1)], 'update': [({k: 77},)], '__ior__': [({k: 77},)], 'rebind': [({k: 99},)], 'sym_rebind': [({k: 99},)]}
     return t
-  return {'__setattr__': [('x', 55)], '__delattr__': [('x',)], 'rebind': [({'x': 99},)], 'sym_rebind': [({'x': 99},)]}
+  f = 'x' if y.sym_hasattr('x') else 'a'
+  return {'__setattr__': [(f, 55)], '__delattr__': [(f,)], 'rebind': [({f: 99},)], 'sym_rebind': [({f: 99},)]}
 ACCESSOR_WRITES = ('__setitem__', '__setattr__', '__delitem__', '__delattr__')
 
 def _protection_cases():
@@ -569,6 +577,236 @@ def protection_sweep(ctx):
                                             'WritePermissionError and leave the protected value unchanged')
   ctx.log('protection sweep (copies and views): %d cases, %d mutator calls (%d effective on the unprotected twin) in %.1fs' % (n, counters['calls'], counters['effective'], time.time() - t0))
 
+# ----------------------------------------------------------------------------------------------------
+# Protection as a STATE INVARIANT over histories (every run).  A shadow copy of the protection flags of every node is kept by
+# the harness: it changes only when the history explicitly changes protection (seal(b): the whole subtree; set_accessor_writable(b):
+# the node and the views that belong to it).  After EVERY step -- successful, refused or failed -- every node reachable from the
+# root (children and views) must report the flags of the shadow; nodes seen for the first time enter the shadow with the flags they
+# report.  At the end of the history protection is re-probed behaviourally on the live objects: every mutator on every node whose
+# shadow says sealed, every accessor write on every node whose shadow says not accessor-writable, outside any scope and inside
+# allow_writable_accessors(True) > allow_writable_accessors(None); the tree must stay exactly as it was.
+_TYPED = []
+def _typed():
+  """(dict spec, list spec, typed class)."""
+  if not _TYPED:
+    P = D.pg()
+    T = P.typing
+    dspec = T.Dict([('x', T.Int(default=1)), ('y', T.Str(default='foo'))])
+    lspec = T.List(T.Int())
+    @P.members([('a', T.Int(default=1)), ('d', T.Dict([('x', T.Int(default=1)), ('y', T.Str(default='foo'))])), ('l', T.List(T.Int(), default=[])),
+                ('o', T.Any(default=None))])
+    class C08Typed(P.Object):
+      pass
+    @P.members([('a', T.Int(default=1)), ('d', T.Dict([('x', T.Int(default=1))]))])
+    class C08TypedW(P.Object):
+      allow_symbolic_assignment = True
+    _TYPED.extend([dspec, lspec, C08Typed, C08TypedW])
+  return _TYPED
+
+_VIEW_ATTRS = {}
+def _views(n):
+  """Symbolic objects that public non-callable attributes of n hand out, that belong to n and are not stored as its items (names cached per class)."""
+  P = D.pg()
+  cls = type(n)
+  if cls not in _VIEW_ATTRS:
+    names = []
+    kids = [id(v) for _, v in D.sym_children(n)]
+    for name in sorted(dir(n)):
+      if name.startswith('_'):
+        continue
+      try:
+        a = getattr(n, name)
+      except BaseException:   # pylint: disable=broad-except
+        continue
+      if isinstance(a, P.Symbolic) and not callable(a) or (isinstance(a, P.Symbolic) and isinstance(a, (P.Dict, P.List))):
+        if a is not n and id(a) not in kids and a.sym_parent is n:
+          names.append(name)
+    _VIEW_ATTRS[cls] = names
+  out = []
+  for name in _VIEW_ATTRS[cls]:
+    try:
+      a = getattr(n, name)
+    except BaseException:     # pylint: disable=broad-except
+      continue
+    if isinstance(a, P.Symbolic) and a.sym_parent is n:
+      out.append((name, a))
+  return out
+
+def _all_nodes(root):
+  """[(label, node, owner-or-None)] for everything stored below root plus the views; owner is set for a view."""
+  out, seen = [], set()
+  def visit(label, n, owner):
+    if id(n) in seen: return
+    seen.add(id(n)); out.append((label, n, owner))
+    for name, v in _views(n):
+      visit(label + '.' + name, v, n)
+    for k, v in D.sym_children(n):
+      if D.is_sym(v):
+        visit('%s[%r]' % (label, k), v, None)
+  visit('root', root, None)
+  return out
+
+def _history_root(rng):
+  P = D.pg()
+  A, B, C = D.classes()
+  dspec, lspec, T1, T2 = _typed()
+  F = _functor()
+  def aw(): return rng.random() < 0.5
+  kids = dict(
+      td=lambda: P.Dict(x=5, y='bar', value_spec=dspec, accessor_writable=aw()),
+      tl=lambda: P.List([1, 2, 3], value_spec=lspec, accessor_writable=aw()),
+      ud=lambda: P.Dict(a=1, b=P.Dict(c=2, accessor_writable=aw()), l=[1, 2], accessor_writable=aw()),
+      ul=lambda: P.List([1, P.Dict(a=1), [2, 3]], accessor_writable=aw()),
+      ob=lambda: B(x=1, y=P.Dict(a=1), z=[1]),
+      oa=lambda: A(x=1, y=[P.Dict(a=1)]),
+      t1=lambda: T1(a=2, d=dict(x=3, y='q'), l=[4, 5], o=P.Dict(k=1)),
+      t2=lambda: T2(a=2, d=dict(x=3)),
+      fn=lambda: F(x=5, y=P.Dict(a=1)),
+  )
+  names = sorted(kids)
+  rng.shuffle(names)
+  root = P.Dict({k: kids[k]() for k in names[:rng.randint(3, 6)]})
+  for label, n, owner in _all_nodes(root):
+    if owner is None and n is not root and rng.random() < 0.25:
+      n.seal()
+    elif owner is None and rng.random() < 0.2:
+      n.set_accessor_writable(rng.random() < 0.5)
+  return root
+
+def _history_ops(n, rng):
+  """Candidate (name, args) on node n."""
+  P = D.pg()
+  dspec, lspec, T1, T2 = _typed()
+  ops = []
+  for name, arglists in _mutator_table(n).items():
+    for args in arglists:
+      ops.append((name, args))
+  if isinstance(n, P.Dict):
+    ops += [('use_value_spec', (None,)), ('use_value_spec', (dspec,)), ('clear', ()), ('clear', ()), ('update', ({'x': 9},)), ('pop', ('y', None)), ('rebind', ({'x': 3},)),
+            ('__setitem__', ('x', 7)), ('__delitem__', ('y',))]
+  elif isinstance(n, P.List):
+    ops += [('use_value_spec', (None,)), ('use_value_spec', (lspec,)), ('clear', ()), ('append', (4,)), ('rebind', ({0: 8},)), ('__setitem__', (0, 6))]
+  else:
+    ops += [('rebind', ({'a': 7},)), ('__setattr__', ('a', 8)), ('rebind', ({'d': {'x': 4}},)), ('rebind', ({'o': [1]},))]
+  ops += [('seal', (True,)), ('seal', (False,)), ('set_accessor_writable', (True,)), ('set_accessor_writable', (False,)), ('clone', ()), ('clone', (True,))]
+  return ops
+
+def _scopes(rng):
+  P = D.pg()
+  r = rng.random()
+  if r < 0.55: return 'no scope', lambda: [ _cl.nullcontext() ]
+  if r < 0.65: return 'as_sealed(False)', lambda: [P.as_sealed(False)]
+  if r < 0.72: return 'as_sealed(True)', lambda: [P.as_sealed(True)]
+  if r < 0.80: return 'allow_writable_accessors(True)', lambda: [P.allow_writable_accessors(True)]
+  if r < 0.86: return 'allow_writable_accessors(False)', lambda: [P.allow_writable_accessors(False)]
+  if r < 0.93: return 'notify_on_change(False)', lambda: [P.notify_on_change(False)]
+  return 'allow_writable_accessors(True) > as_sealed(False)', lambda: [P.allow_writable_accessors(True), P.as_sealed(False)]
+
+def run_history_case(case, counters=None):
+  """One generated history {kind:'history', seed, steps}.  Returns hits [(sig, what)] (first failure only)."""
+  import random
+  P = D.pg()
+  rng = random.Random(case['seed'])
+  with quiet():
+    root = _history_root(rng)
+    keep = []          # strong references: ids must not be reused
+    shadow = {}        # id -> [sealed, accessor_writable]
+    def observe(first, opdesc):
+      for label, n, owner in _all_nodes(root):
+        if id(n) not in shadow:
+          shadow[id(n)] = [n.is_sealed, n.accessor_writable]; keep.append(n)
+          continue
+        exp = shadow[id(n)]
+        got = [n.is_sealed, n.accessor_writable]
+        if got != exp:
+          which = 'sealed' if got[0] != exp[0] else 'accessor_writable'
+          typed = 'typed' if getattr(n, 'value_spec', None) is not None or not isinstance(n, (P.Dict, P.List)) else 'untyped'
+          return ('C08/protection-lost/%s/%s-%s' % (opdesc[0], which, typed),
+                  'after %s%r on %s (%s): %s %s reports %s = %s, it was %s and the history never changed it' % (
+                      opdesc[0], opdesc[1], opdesc[2], opdesc[3], type(n).__name__, label, which, got[0] if which == 'sealed' else got[1], exp[0] if which == 'sealed' else exp[1]))
+      return None
+    observe(True, None)
+    for step in range(case['steps']):
+      nodes = _all_nodes(root)
+      label, n, owner = nodes[rng.randrange(len(nodes))]
+      ops = _history_ops(n, rng)
+      name, args = ops[rng.randrange(len(ops))]
+      sname, mk = _scopes(rng)
+      if not hasattr(n, name):
+        continue
+      if owner is not None and name in ('seal', 'set_accessor_writable'):
+        continue      # the protection of the members a view shows is the owner's: it is changed on the owner (unsealing a view is an explicit unprotect the owner does not report)
+      err = None
+      try:
+        with _cl.ExitStack() as st, D.watchdog(5):
+          for c in mk(): st.enter_context(c)
+          getattr(n, name)(*args)
+      except BaseException as e:      # pylint: disable=broad-except
+        err = e
+      if counters is not None:
+        counters['steps'] += 1; counters['ok'] += err is None
+        counters['ops'][name] = counters['ops'].get(name, 0) + 1
+      if err is None and name == 'seal':
+        for _, m, _o in _all_nodes(n):
+          shadow.setdefault(id(m), [m.is_sealed, m.accessor_writable])[0] = args[0]
+          if all(m is not k for k in keep): keep.append(m)
+      if err is None and name == 'set_accessor_writable':
+        shadow[id(n)][1] = args[0]
+        for _, v in _views(n):
+          shadow.setdefault(id(v), [v.is_sealed, v.accessor_writable])[1] = args[0]
+      h = observe(False, (name, args, '%s %s' % (type(n).__name__, label), sname + (', raised %s' % type(err).__name__ if err else '')))
+      if h:
+        return [h]
+    # behavioural re-probe on the live objects
+    impl = D.Impl(); impl.roots.append(root)
+    for label, n, owner in _all_nodes(root):
+      sealed, awr = shadow[id(n)]
+      if not sealed and awr:
+        continue
+      for name, arglists in _mutator_table(n).items():
+        if not sealed and name not in ACCESSOR_WRITES:
+          continue
+        for args in arglists:
+          if not hasattr(n, name):
+            continue
+          for sname, mk in (('no scope', lambda: []), ('allow_writable_accessors(True) > allow_writable_accessors(None)', lambda: [P.allow_writable_accessors(True), P.allow_writable_accessors(None)])):
+            s0 = impl.snapshot()
+            err = None
+            try:
+              with _cl.ExitStack() as st, D.watchdog(5):
+                for c in mk(): st.enter_context(c)
+                getattr(n, name)(*args)
+            except BaseException as e:    # pylint: disable=broad-except
+              err = e
+            if counters is not None:
+              counters['probes'] += 1
+            if impl.snapshot() != s0:
+              typed = 'typed' if getattr(n, 'value_spec', None) is not None or not isinstance(n, (P.Dict, P.List)) else 'untyped'
+              return [('C08/protection-not-enforced/%s.%s/%s-%s' % ('List' if isinstance(n, P.List) else 'Dict' if isinstance(n, P.Dict) else 'Object', name,
+                                                                  'sealed' if sealed else 'accessor', typed),
+                       'at the end of the history %s %s is %s (flags as the history left them) but %s%r (%s) %s and changes the tree' % (
+                           type(n).__name__, label, 'sealed' if sealed else 'not accessor-writable', name, args, sname,
+                           'raises %s' % type(err).__name__ if err else 'raises nothing'))]
+  return []
+
+def history_sweep(ctx):
+  import time
+  t0 = time.time()
+  n = ctx.scale(220, 6000)
+  counters = dict(steps=0, ok=0, probes=0, ops={})
+  base = ctx.rng.randrange(1 << 30)
+  for i in range(n):
+    case = dict(kind='history', seed=base + i, steps=ctx.rng.choice([4, 8, 12]))
+    ctx.evaluations += 1
+    for sig, what in run_history_case(case, counters):
+      ctx.hit(sig, what, case)
+  ctx.extra['protection_history_sweep'] = dict(
+      histories=n, steps=counters['steps'], steps_without_exception=counters['ok'], end_of_history_probes=counters['probes'], operations=dict(sorted(counters['ops'].items())),
+      what='generated histories on a tree of typed (value_spec) and untyped Dict / List, Object (incl. typed fields), functor nodes with random sealed / accessor flags, under random '
+           'scopes; operations: every mutator of the surface tables, clear / update / pop / rebind, seal / unseal, set_accessor_writable, use_value_spec(None | spec), clone; '
+           'after every step the flags of every node (children and views) equal the harness shadow; at the end every protected node is re-probed with every mutator')
+  ctx.log('protection history sweep: %d histories, %d steps (%d without exception), %d end-of-history probes in %.1fs' % (n, counters['steps'], counters['ok'], counters['probes'], time.time() - t0))
+
 def surface_sweep(ctx):
   hits, listed = _surface_hits()
   for sig, what, case in hits:
@@ -584,3 +822,4 @@ def surface_sweep(ctx):
     ctx.hit(sig, what, case)
   ctx.extra['surface_sweep']['mutator_calls_on_sealed'] = n
   protection_sweep(ctx)
+  history_sweep(ctx)
